@@ -69,6 +69,8 @@ class Harness:
                 f += "-nodebug"
             if "nomiri" in self.flags:
                 f += "-nomiri"
+            if "big" in self.flags:
+                f += "-big"
             return f
         f = "ext"
         if "nostd" in self.flags:
@@ -86,7 +88,7 @@ REG = re.compile(r"^\s*//\s*@reg\s+(.*)$")
 ANN = re.compile(r"^\s*//\s*@h\s+(.*)$")
 FN = re.compile(r"^\s*(?:pub\s+)?fn\s+([A-Za-z0-9_]+)\s*\(")
 MACRO = re.compile(r"^\s*[a-z_0-9]+!\(\s*([A-Za-z0-9_]+)\s*,")
-UNW = re.compile(r"#\[kani::unwind\((\d+)\)\]")
+UNW = re.compile(r"kani::unwind\((\d+)\)")
 
 
 def parse_meta(s):
@@ -183,6 +185,8 @@ def flavour_cfg(fl):
         rf += " -C debug-assertions=off"
     if "-nomiri" in fl:
         rf = rf.replace("--cfg miri ", "")
+    if "-big" in fl:
+        rf += " --cfg verif_big"   # in-crate step harnesses: allocation 6 (Bytes) / 12 (BytesMut) bytes instead of 4 / 8
     if "-safety" in fl:
         extra = ["--prove-safety-only"]
     return cwd, rf, feat, extra
